@@ -23,9 +23,9 @@ func init() {
 		Level: "exploration",
 		Cases: func(t string) int {
 			if t == "thorough" {
-				return 12000
+				return 24000
 			}
-			return 640
+			return 2000
 		},
 		Batch:  func(t string) int { return 40 },
 		Floors: []string{"files_read_back", "pages_v1", "pages_v2", "multi_rowgroup_files", "dict_fallback_columns", "codec_SNAPPY", "codec_GZIP", "codec_ZSTD", "codec_BROTLI", "codec_LZ4_RAW", "stream_level_checks"},
